@@ -225,6 +225,42 @@ pub fn run(ctx: &mut Ctx) {
             Err(p) => ctx.violation(&format!("compressed-as-subject/panic/{}", p.signature()), &format!("{:?}", p), jhex(&outer)),
         }
 
+        // whole-envelope compress on envelopes whose subject is already compressed and on pre-obscured
+        // variants: compress() must really compress (same digest) and uncompress back to exactly that
+        {
+            let key = fresh_key(&mut rng);
+            let mut variants: Vec<(&str, Envelope)> = vec![("outer-with-compressed-subject", outer.clone()), ("obscured-variant", gen::obscure_random(&e, &mut rng, 2, &key))];
+            if let Ok(cs) = e.compress_subject() {
+                variants.push(("after-compress_subject", cs));
+            }
+            for (label, x) in variants {
+                // (a root that is itself compressed is the idempotence case, judged above)
+                if x.is_elided() || x.is_encrypted() || x.is_compressed() {
+                    continue;
+                }
+                ctx.eval();
+                ctx.count("whole_compress_on_variants");
+                match trap::guard(|| x.compress()) {
+                    Ok(Ok(cx)) => {
+                        if !cx.is_compressed() || gen::root_digest(&cx) != gen::root_digest(&x) {
+                            ctx.violation(&format!("compress-variant/not-compressed/{}", label), "compress() did not return a compressed envelope with the same digest", jhex(&x));
+                            continue;
+                        }
+                        match cx.uncompress() {
+                            Ok(u) => {
+                                if !u.is_identical_to(&x) || env_bytes(&u) != env_bytes(&x) {
+                                    ctx.violation(&format!("compress-variant/roundtrip/{}", label), "uncompress(compress(X)) is not identical to X", jhex(&x));
+                                }
+                            }
+                            Err(err) => ctx.violation(&format!("compress-variant/uncompress-err/{}", label), &format!("{}", err), jhex(&x)),
+                        }
+                    }
+                    Ok(Err(err)) => ctx.violation(&format!("compress-variant/err/{}", label), &format!("{}", err), jhex(&x)),
+                    Err(p) => ctx.violation(&format!("compress-variant/panic/{}/{}", label, p.signature()), &format!("{:?}", p), jhex(&x)),
+                }
+            }
+        }
+
         // Compress elision action: every produced element uncompresses to the original element
         let flat = t.flatten();
         if flat.len() > 1 {
